@@ -1138,13 +1138,15 @@ func runC11(seed int64, tier string, outDir string) *result {
 	}
 	// the same through each of the four loaders: FetchOptions.Timeout bounds the load although the caller's
 	// own context never ends
-	for i := 0; i < 2; i++ {
+	for i, tries := 0, 0; i < 2 && tries < 50; tries++ {
 		d := dags[rng.Intn(len(dags))]
 		src := d.logs[0]
 		if src.Len() < 2 {
 			continue
 		}
-		stuckCid := d.order[rng.Intn(len(d.order))]
+		i++
+		held := src.GetEntries().Slice()
+		stuckCid := held[rng.Intn(len(held))].GetHash() // a block every unbounded load of this log asks for
 		ident := d.env.identity(d.idents[0])
 		tmo := 150 * time.Millisecond
 		loaders := map[string]func(ctx context.Context) error{
